@@ -31,6 +31,24 @@ Proof.
   rewrite (split_aux_noslash [] child Hc). reflexivity.
 Qed.
 
+Lemma split_aux_nonempty cur s : split_slash_aux cur s <> [].
+Proof.
+  revert cur; induction s as [|c r IH]; intros cur; cbn [split_slash_aux]; [discriminate|].
+  destruct (c =? slash); [discriminate | apply IH].
+Qed.
+
+(* strings.Join(strings.Split(s, "/"), "/") = s *)
+Lemma join_split_aux cur s : join_slash (split_slash_aux cur s) = rev cur ++ s.
+Proof.
+  revert cur; induction s as [|c r IH]; intros cur; cbn [split_slash_aux].
+  - cbn. rewrite app_nil_r. reflexivity.
+  - destruct (c =? slash) eqn:E.
+    + apply N.eqb_eq in E; subst c. cbn [join_slash].
+      destruct (split_slash_aux [] r) as [|x l] eqn:S; [exfalso; exact (split_aux_nonempty [] r S)|].
+      rewrite <- S, IH. reflexivity.
+    + rewrite IH. cbn [rev]. rewrite <- app_assoc. reflexivity.
+Qed.
+
 Lemma ends_with_slash_app a b :
   b <> [] -> ends_with_slash (a ++ b) = ends_with_slash b.
 Proof.
@@ -144,6 +162,27 @@ Section PathsProofs.
     post_file_path H (merkle_path H parent) (hexH H child)
     = merkle_path H (parent ++ slash :: child).
   Proof. intros. unfold post_file_path. symmetry. apply child_relation; assumption. Qed.
+
+  (* the client-side split recombines to the plain path's address *)
+  Lemma client_split_parts parent child :
+    child <> [] -> has_slash child = false -> ends_with_slash parent = false ->
+    client_split H (parent ++ slash :: child) = (merkle_path H parent, hexH H child).
+  Proof.
+    intros Hne Hns Hp. unfold client_split.
+    rewrite (trim_not_ending (parent ++ slash :: child)).
+    2:{ change (slash :: child) with ([slash] ++ child). rewrite app_assoc.
+        rewrite ends_with_slash_app by exact Hne. apply noslash_not_ending; exact Hns. }
+    rewrite split_snoc_segment by exact Hns.
+    rewrite removelast_last, last_last. unfold split_slash. rewrite join_split_aux. reflexivity.
+  Qed.
+
+  Lemma client_split_recombines parent child :
+    child <> [] -> has_slash child = false -> ends_with_slash parent = false ->
+    let (hp, hc) := client_split H (parent ++ slash :: child) in
+    post_file_path H hp hc = merkle_path H (parent ++ slash :: child).
+  Proof.
+    intros Hne Hns Hp. rewrite client_split_parts by assumption. apply post_file_address; assumption.
+  Qed.
 
   (* injectivity up to an explicit collision *)
   Definition collision : Prop := exists x y : bytes, x <> y /\ H x = H y.
